@@ -13,14 +13,14 @@ pub struct Conv {
     pub rows: Vec<[Option<i64>; 6]>, // SIX order
 }
 impl Conv {
-    pub fn build(m: &Params, site: Site, from: NaiveDate, to: NaiveDate, l: &mut Local) -> Conv {
+    pub fn build(m: &Params, site: Site, from: NaiveDate, to: NaiveDate, w: Option<(f64, f64)>, l: &mut Local) -> Conv {
         let mut p0 = m.clone();
         p0.extreme_latitude_method = ExtremeLatitudeMethod::None;
         p0.round_seconds = RoundSeconds::None;
         let mut rows = vec![];
         let mut d = from;
         while d <= to {
-            let r = pt(&p0, site.loc(), d, None);
+            let r = pt(&p0, site.loc(), d, w.map(|(a, b)| weather(a, b)));
             l.evals += 1;
             let mut row = [None; 6];
             for (i, pr) in SIX.iter().enumerate() {
@@ -58,7 +58,7 @@ impl Conv {
     }
 }
 
-pub fn judge(ctx: &Ctx, l: &mut Local, m: &Params, site: Site, date: NaiveDate, conv: &Conv) {
+pub fn judge(ctx: &Ctx, l: &mut Local, m: &Params, site: Site, date: NaiveDate, conv: &Conv, w: Option<(f64, f64)>) {
     let row = *conv.row(date).expect("date inside sweep");
     let bad = row[0].is_none() || row[5].is_none();
     let Some((gd, dist, tie)) = conv.nearest_good(date) else {
@@ -73,9 +73,9 @@ pub fn judge(ctx: &Ctx, l: &mut Local, m: &Params, site: Site, date: NaiveDate, 
         let mut p = m.clone();
         p.extreme_latitude_method = pol;
         p.round_seconds = RoundSeconds::None;
-        let r = pt(&p, site.loc(), date, None);
+        let r = pt(&p, site.loc(), date, w.map(|(a, b)| weather(a, b)));
         l.evals += 1;
-        let case = || PtCase::new(&p, site, date).with_extra(json!({"expected_good_date": date_json(gd), "distance_days": dist, "tie": tie}));
+        let case = || PtCase::new(&p, site, date).with_weather(w).with_extra(json!({"expected_good_date": date_json(gd), "distance_days": dist, "tie": tie}));
         for (i, pr) in SIX.iter().enumerate() {
             let must = if variant == "all" { true } else { (i == 0 || i == 5) && row[i].is_none() };
             if !must {
@@ -130,9 +130,14 @@ pub fn explore(ctx: &Ctx) {
                     let mut s = a;
                     while s <= b {
                         let e = (s + Days::new(365 * 50)).min(b);
-                        jobs.push((Site::new(lat, lon, 0.0, gmt), m, s, e));
+                        jobs.push((Site::new(lat, lon, 0.0, gmt), m, s, e, None));
                         s = e.succ_opt().unwrap();
                     }
+                }
+                // the same with weather supplied by the caller (the fallback must pass it on): one year
+                if m == methods[0] {
+                    jobs.push((Site::new(lat, lon, 0.0, gmt), m, ymd(2023, 7, 1), ymd(2024, 6, 30), Some((1040.0, -25.0))));
+                    jobs.push((Site::new(lat, lon, 0.0, gmt), m, ymd(2023, 7, 1), ymd(2024, 6, 30), Some((880.0, 31.0))));
                 }
             }
         }
@@ -142,12 +147,13 @@ pub fn explore(ctx: &Ctx) {
     ctx.alphabet("methods", json!(methods.iter().map(|m| format!("{:?}", m)).collect::<Vec<_>>()));
     ctx.alphabet("date_ranges", json!(ranges.iter().map(|(a, b)| format!("{}..{}", a, b)).collect::<Vec<_>>()));
     ctx.alphabet("policies", json!(["NearestGoodDayFajrIshaInvalid", "NearestGoodDayAllPrayersAlways"]));
-    par_jobs(ctx, &jobs, |(site, m, a, b), l| {
+    ctx.alphabet("weather", json!(["absent (all ranges)", [1040.0, -25.0], [880.0, 31.0]]));
+    par_jobs(ctx, &jobs, |(site, m, a, b, w), l| {
         let pm = Params::new(*m);
-        let conv = Conv::build(&pm, *site, *a - Days::new(PAD), *b + Days::new(PAD), l);
+        let conv = Conv::build(&pm, *site, *a - Days::new(PAD), *b + Days::new(PAD), *w, l);
         let mut d = *a;
         while d <= *b {
-            judge(ctx, l, &pm, *site, d, &conv);
+            judge(ctx, l, &pm, *site, d, &conv, *w);
             d = d.succ_opt().unwrap();
         }
     });
@@ -156,7 +162,7 @@ pub fn explore(ctx: &Ctx) {
 pub fn replay(ctx: &Ctx, _clause: &str, case: &Value) {
     let c: PtCase = serde_json::from_value(case.clone()).expect("case");
     let mut l = Local::default();
-    let conv = Conv::build(&c.params, c.site, c.date - Days::new(PAD), c.date + Days::new(PAD), &mut l);
-    judge(ctx, &mut l, &c.params, c.site, c.date, &conv);
+    let conv = Conv::build(&c.params, c.site, c.date - Days::new(PAD), c.date + Days::new(PAD), c.weather, &mut l);
+    judge(ctx, &mut l, &c.params, c.site, c.date, &conv, c.weather);
     println!("  result: {}", fmt_r(&c.run()));
 }
